@@ -96,12 +96,15 @@ type lshOp struct {
 
 type lshScenario struct {
 	Dim, Quant, Metric int
+	Full               bool
 	Ops                []lshOp
 }
 
 // runLSHScenario executes ops on a fresh collection, checking TreeInv and the observable
 // consequences of C05 after every op. Returns the first failure (signature, detail) or "".
-func runLSHScenario(o *Opts, res *Result, sc *lshScenario, tag string, full bool) (string, string) {
+func runLSHScenario(o *Opts, res *Result, sc *lshScenario, tag string, full bool, drv *Driver) (string, string) {
+	hp := newHPTable()
+	srng := rand.New(rand.NewSource(int64(len(sc.Ops))*31 + int64(sc.Dim)))
 	path := filepath.Join(o.Scratch, "lsh-"+tag+".dat")
 	os.Remove(path)
 	defer os.Remove(path)
@@ -124,6 +127,16 @@ func runLSHScenario(o *Opts, res *Result, sc *lshScenario, tag string, full bool
 		return ids
 	}
 	for i, op := range sc.Ops {
+		var before []*syzgydb.VerifNode
+		var oldVec []float64
+		if drv != nil && (op.K == "add" || (op.K == "del" && live[op.ID])) {
+			before = c.VerifDumpForest()
+			if live[op.ID] {
+				d, _ := c.GetDocument(op.ID)
+				oldVec = d.Vector
+			}
+		}
+		wasLive := live[op.ID]
 		switch op.K {
 		case "add":
 			c.AddDocument(op.ID, op.Vec, []byte(fmt.Sprintf(`{"n":%d}`, i)))
@@ -149,6 +162,16 @@ func runLSHScenario(o *Opts, res *Result, sc *lshScenario, tag string, full bool
 			res.Hit("op:" + op.K)
 		}
 		ids := liveIDs()
+		if before != nil {
+			if sig, detail := replayIndexOp(drv, hp, c, op, before, oldVec, wasLive); sig != "" {
+				return sig, fmt.Sprintf("after op %d (%s %d): %s", i, op.K, op.ID, detail)
+			}
+		}
+		if drv != nil && (full || i%5 == 0) {
+			if sig, detail := searchTie(drv, hp, c, sc, ids, srng); sig != "" {
+				return sig, fmt.Sprintf("after op %d: %s", i, detail)
+			}
+		}
 		if err := treeInv(c, ids); err != nil {
 			kind := "index-invariant"
 			switch {
@@ -279,6 +302,12 @@ func runLSHChild(o *Opts, sc *lshScenario) (string, string) {
 	cmd := exec.Command(os.Args[0], "lsh-child", "--replay", f, "--scratch", o.Scratch)
 	out, err := cmd.CombinedOutput()
 	s := string(out)
+	if i := strings.Index(s, "LSHSTATS "); i >= 0 {
+		var a, b, c int
+		fmt.Sscanf(s[i:], "LSHSTATS replays=%d searches=%d driver_requests=%d", &a, &b, &c)
+		childReplays += a
+		childSearches += b
+	}
 	if i := strings.Index(s, "LSHRESULT "); i >= 0 {
 		line := strings.SplitN(s[i+10:], "\n", 2)[0]
 		parts := strings.SplitN(line, "\t", 2)
@@ -297,15 +326,20 @@ func runLSHChild(o *Opts, sc *lshScenario) (string, string) {
 	return "", ""
 }
 
+var childReplays, childSearches int
+
 func lshChild(o *Opts) {
 	var sc lshScenario
 	readJSON(o.Replay, &sc)
-	sig, detail := runLSHScenario(o, nil, &sc, fmt.Sprint(os.Getpid()), true)
+	drv := StartDriver()
+	defer drv.Close()
+	sig, detail := runLSHScenario(o, nil, &sc, fmt.Sprint(os.Getpid()), sc.Full, drv)
+	fmt.Printf("LSHSTATS replays=%d searches=%d driver_requests=%d\n", statReplays, statSearches, drv.n)
 	fmt.Printf("LSHRESULT %s\t%s\n", sig, strings.ReplaceAll(detail, "\n", " "))
 }
 
-func lshC05(o *Opts) {
-	res := NewResult("C05", "lsh", o.Seed, o.Tier)
+func lshRun(prop string, o *Opts) {
+	res := NewResult(prop, "lsh", o.Seed, o.Tier)
 	res.Rule = "histories mixing AddDocument on fresh and existing ids, UpdateDocument, removal (down to zero documents), refill and reopen, all quantizations x both metrics, below and above the leaf-split threshold; " +
 		"after every operation the index invariant (per tree: leaf ids = live ids, each once, each in the leaf its stored vector routes to) is evaluated on the dumped real forest, and a covering-radius default search must return every live document once; " +
 		"each scenario runs in a child process (a crash in an index goroutine is an outcome); distinct = distinct scenario x op index"
@@ -329,7 +363,11 @@ func lshC05(o *Opts) {
 		sig, detail := runLSHChild(o, &rp.Replay.Scenario)
 		res.Evaluations = len(rp.Replay.Scenario.Ops)
 		if sig != "" {
-			res.Violate("impl-failure", sig, detail, map[string]any{"scenario": rp.Replay.Scenario})
+			kind := "impl-failure"
+			if strings.HasPrefix(sig, "tie/") {
+				kind = "tie-broken"
+			}
+			res.Violate(kind, sig, detail, map[string]any{"scenario": rp.Replay.Scenario})
 		}
 		res.Write(o.Out)
 		return
@@ -337,7 +375,11 @@ func lshC05(o *Opts) {
 	for i := o.Start; i < o.Start+nscen; i++ {
 		rng := rand.New(rand.NewSource(o.Seed*7919 + int64(i)))
 		sc := genLSHScenario(rng, nops, i)
+		sc.Full = prop == "C04"
+		childReplays, childSearches = 0, 0
 		sig, detail := runLSHChild(o, sc)
+		res.Histogram["index_ops_replayed_on_model"] += childReplays
+		res.Histogram["searches_compared_with_model"] += childSearches
 		res.Evaluations += len(sc.Ops)
 		res.TracesValidated += len(sc.Ops)
 		for j := range sc.Ops {
@@ -357,14 +399,305 @@ func lshC05(o *Opts) {
 			if !already {
 				min := shrinkLSH(o, sc, sig)
 				_, d2 := runLSHChild(o, min)
-				res.Violate("impl-failure", sig, detail+" | minimized to "+fmt.Sprint(len(min.Ops))+" ops: "+d2, map[string]any{"scenario": min})
+				kind := "impl-failure"
+				if strings.HasPrefix(sig, "tie/") {
+					kind = "tie-broken"
+				}
+				res.Violate(kind, sig, detail+" | minimized to "+fmt.Sprint(len(min.Ops))+" ops: "+d2, map[string]any{"scenario": min})
 			}
 		}
 	}
 	res.Write(o.Out)
 }
 
+// ---------- model tie: index operations and searches replayed on the Lean model ----------
+
+type hpTable struct{ ids map[string]int }
+
+func newHPTable() *hpTable { return &hpTable{ids: map[string]int{}} }
+
+func (h *hpTable) id(n *syzgydb.VerifNode) int {
+	var sb strings.Builder
+	for _, x := range n.Normal {
+		fmt.Fprintf(&sb, "%x,", math.Float64bits(x))
+	}
+	fmt.Fprintf(&sb, "|%x", math.Float64bits(n.B))
+	k := sb.String()
+	if v, ok := h.ids[k]; ok {
+		return v
+	}
+	v := len(h.ids) + 1
+	h.ids[k] = v
+	return v
+}
+
+func (h *hpTable) enc(n *syzgydb.VerifNode, out *[]string) {
+	if n == nil {
+		*out = append(*out, "NIL")
+		return
+	}
+	if n.Leaf {
+		*out = append(*out, fmt.Sprintf("L%d", len(n.IDs)))
+		for _, id := range n.IDs {
+			*out = append(*out, fmt.Sprint(id))
+		}
+		return
+	}
+	*out = append(*out, fmt.Sprintf("N%d", h.id(n)))
+	h.enc(n.Left, out)
+	h.enc(n.Right, out)
+}
+
+func (h *hpTable) encTree(n *syzgydb.VerifNode) string {
+	var out []string
+	h.enc(n, &out)
+	return strings.Join(out, ";")
+}
+
+func internalNodes(n *syzgydb.VerifNode, acc *[]*syzgydb.VerifNode) {
+	if n == nil || n.Leaf {
+		return
+	}
+	*acc = append(*acc, n)
+	internalNodes(n.Left, acc)
+	internalNodes(n.Right, acc)
+}
+
+func leafIDs(n *syzgydb.VerifNode, acc *[]uint64) {
+	if n == nil {
+		return
+	}
+	if n.Leaf {
+		*acc = append(*acc, n.IDs...)
+		return
+	}
+	leafIDs(n.Left, acc)
+	leafIDs(n.Right, acc)
+}
+
+const oldHandle = uint64(1) << 62
+
+var statReplays, statSearches int
+
+// replayIndexOp: the model's insert/remove applied to the dumped forest before the op, with the
+// sides the implementation computes, must give the dumped forest after the op.
+func replayIndexOp(drv *Driver, hp *hpTable, c *syzgydb.Collection, op lshOp, before []*syzgydb.VerifNode, oldVec []float64, wasLive bool) (string, string) {
+	after := c.VerifDumpForest()
+	thr := c.VerifThreshold()
+	statReplays++
+	for k := range before {
+		cur := hp.encTree(before[k])
+		// sides of every hyperplane (before and after) for: the old vector, and the stored vectors of all ids in the after tree
+		var nodes []*syzgydb.VerifNode
+		internalNodes(before[k], &nodes)
+		known := map[int]bool{}
+		for _, n := range nodes {
+			known[hp.id(n)] = true
+		}
+		var anodes []*syzgydb.VerifNode
+		internalNodes(after[k], &anodes)
+		choose := "none"
+		for _, n := range anodes {
+			if !known[hp.id(n)] {
+				choose = fmt.Sprint(hp.id(n))
+				nodes = append(nodes, n)
+			}
+		}
+		var tab []string
+		if oldVec != nil {
+			for _, n := range nodes {
+				_, right := c.VerifSide(oldVec, n.Normal, n.B)
+				tab = append(tab, fmt.Sprintf("%d:%d=%d", hp.id(n), oldHandle+op.ID, b2i(right)))
+			}
+		}
+		var ids []uint64
+		leafIDs(after[k], &ids)
+		for _, id := range ids {
+			d, err := c.GetDocument(id)
+			if err != nil {
+				continue
+			}
+			for _, n := range nodes {
+				_, right := c.VerifSide(d.Vector, n.Normal, n.B)
+				tab = append(tab, fmt.Sprintf("%d:%d=%d", hp.id(n), id, b2i(right)))
+			}
+		}
+		st := "-"
+		if len(tab) > 0 {
+			st = strings.Join(tab, ",")
+		}
+		if (op.K == "add" && wasLive) || op.K == "del" {
+			handle := op.ID
+			if op.K == "add" {
+				handle = oldHandle + op.ID
+			} else if oldVec != nil {
+				handle = oldHandle + op.ID
+			}
+			r := drv.Send(fmt.Sprintf("lshdel %s %d %d %s", cur, op.ID, handle, st))
+			f := strings.Fields(r)
+			if len(f) != 2 || f[0] != "tree" {
+				return "tie/lsh/remove", "model reply " + abbreviate(r, 200)
+			}
+			cur = f[1]
+		}
+		if op.K == "add" {
+			r := drv.Send(fmt.Sprintf("lshins %d %s %d %d %s %s", thr, cur, op.ID, op.ID, st, choose))
+			f := strings.Fields(r)
+			if len(f) != 2 || f[0] != "tree" {
+				return "tie/lsh/insert", "model reply " + abbreviate(r, 200)
+			}
+			cur = f[1]
+		}
+		if want := hp.encTree(after[k]); cur != want {
+			return "tie/lsh/forest", fmt.Sprintf("tree %d after the op: model %s, implementation %s", k, abbreviate(cur, 300), abbreviate(want, 300))
+		}
+	}
+	return "", ""
+}
+
+func b2i(b bool) int {
+	if b {
+		return 1
+	}
+	return 0
+}
+
+// searchTie: default-precision searches on the implementation vs the model's search over the dumped
+// forest, plus the direct C04 oracles.
+func searchTie(drv *Driver, hp *hpTable, c *syzgydb.Collection, sc *lshScenario, ids []uint64, rng *rand.Rand) (string, string) {
+	forest := c.VerifDumpForest()
+	var trees []string
+	allLeaves := true
+	var nodes []*syzgydb.VerifNode
+	for _, t := range forest {
+		trees = append(trees, hp.encTree(t))
+		if t == nil || !t.Leaf {
+			allLeaves = false
+		}
+		internalNodes(t, &nodes)
+	}
+	query := make([]float64, sc.Dim)
+	switch rng.Intn(3) {
+	case 0:
+		if len(ids) > 0 {
+			d, _ := c.GetDocument(ids[rng.Intn(len(ids))])
+			copy(query, d.Vector)
+		}
+	default:
+		for i := range query {
+			query[i] = rng.Float64()*2 - 1
+		}
+	}
+	var hpt []string
+	seenHP := map[int]bool{}
+	for _, n := range nodes {
+		if seenHP[hp.id(n)] {
+			continue
+		}
+		seenHP[hp.id(n)] = true
+		d, right := c.VerifSide(query, n.Normal, n.B)
+		if math.IsNaN(d) || d < 0 {
+			return "", ""
+		}
+		hpt = append(hpt, fmt.Sprintf("%d:%d=%d", hp.id(n), math.Float64bits(d), b2i(right)))
+	}
+	f := genFilter(rng)
+	var cs []string
+	dist := map[uint64]float64{}
+	acc := map[uint64]bool{}
+	m := 0
+	for _, id := range ids {
+		d, _ := c.GetDocument(id)
+		x := c.VerifDistance(query, d.Vector)
+		if math.IsNaN(x) || x < 0 {
+			return "", ""
+		}
+		a := f.fn == nil || f.fn(id, d.Metadata)
+		if a {
+			m++
+		}
+		dist[id], acc[id] = x, a
+		cs = append(cs, fmt.Sprintf("%d:%d:%d", id, math.Float64bits(x), b2i(a)))
+	}
+	j := func(p []string) string {
+		if len(p) == 0 {
+			return "-"
+		}
+		return strings.Join(p, ",")
+	}
+	K, R := 0, 0.0
+	if rng.Intn(2) == 0 {
+		K = 1 + rng.Intn(12)
+	} else {
+		R = rng.Float64() * 1.5
+		if len(ids) > 0 && rng.Intn(2) == 0 {
+			R = dist[ids[rng.Intn(len(ids))]]
+		}
+		if !(R > 0) {
+			R = 0.25
+		}
+	}
+	statSearches++
+	real := c.Search(syzgydb.SearchArgs{Vector: query, K: K, Radius: R, Filter: f.fn})
+	model := drv.Send(fmt.Sprintf("lsh 200 %d %d %d %s %s %s", K, math.Float64bits(R), math.Float64bits(math.MaxFloat64), strings.Join(trees, "|"), j(cs), j(hpt)))
+	var rb []string
+	for _, r := range real.Results {
+		rb = append(rb, fmt.Sprint(math.Float64bits(r.Distance)))
+	}
+	mf := strings.Fields(model)
+	if len(mf) != 3 {
+		return "tie/lsh/search", "model reply " + abbreviate(model, 200)
+	}
+	searched := 0
+	if len(ids) > 0 {
+		searched = int(math.Round(real.PercentSearched * float64(len(ids)) / 100))
+	}
+	if strings.Join(rb, ",") != strings.Join(distBits(mf[0]+" "+mf[1]), ",") || mf[2] != fmt.Sprintf("n=%d", searched) {
+		return "tie/lsh/search", fmt.Sprintf("K=%d R=%v filter=%s: implementation distances %v searched=%d, model %s", K, R, f.name, rb, searched, abbreviate(model, 300))
+	}
+	// direct oracles (C04)
+	tmp := NewResult("C04", "", 0, "")
+	scq := &searchColl{c: c, docs: map[uint64]*refDoc{}}
+	for _, id := range ids {
+		d, _ := c.GetDocument(id)
+		scq.docs[id] = &refDoc{id: id, meta: d.Metadata}
+	}
+	scq.checkResults(tmp, "C04", "default-precision", real.Results, dist, acc, nil)
+	if len(tmp.Violations) > 0 {
+		return tmp.Violations[0].Signature, tmp.Violations[0].Detail
+	}
+	if K > 0 && len(real.Results) > K {
+		return "C04/more-than-K", fmt.Sprintf("K=%d search returned %d results", K, len(real.Results))
+	}
+	if R > 0 {
+		for _, r := range real.Results {
+			if r.Distance > R {
+				return "C04/outside-radius", fmt.Sprintf("radius %v search returned id %d at distance %v", R, r.ID, r.Distance)
+			}
+		}
+	}
+	if K > 0 && m > 0 && len(real.Results) == 0 {
+		return "C04/empty-although-match-exists", fmt.Sprintf("K=%d search returned nothing although %d live documents pass the filter", K, m)
+	}
+	if allLeaves && K > 0 {
+		ex := c.Search(syzgydb.SearchArgs{Vector: query, K: K, Filter: f.fn, Precision: "exact"})
+		var eb []string
+		for _, r := range ex.Results {
+			eb = append(eb, fmt.Sprint(math.Float64bits(r.Distance)))
+		}
+		if strings.Join(eb, ",") != strings.Join(rb, ",") {
+			return "C04/single-leaf-differs-from-exact", fmt.Sprintf("single-leaf collection (%d docs): default search distances %v, exact %v", len(ids), rb, eb)
+		}
+	}
+	return "", ""
+}
+
+func lshMain(prop string) func(o *Opts) {
+	return func(o *Opts) { lshRun(prop, o) }
+}
+
 func init() {
-	subcommands["lsh-C05"] = lshC05
+	subcommands["lsh-C04"] = lshMain("C04")
+	subcommands["lsh-C05"] = lshMain("C05")
 	subcommands["lsh-child"] = lshChild
 }
